@@ -29,7 +29,7 @@ func init() {
 			"plus (same command) a free-running pass of the same bodies under the Go race detector. distinct = schedules executed; non-trivial = schedules with a preemption or a contended acquisition",
 		Technique:      "stateless model checking of the real implementation (preemption-bounded exhaustive interleaving enumeration under a cooperative scheduler over a sync shim, vector-clock happens-before race checking of every instrumented memory access on every schedule) + free-running race-detector pass as a complement",
 		Assumptions:    []string{"Lock-only choice points are sufficient given data-race freedom, which is checked on every explored schedule (instrumented accesses) and by the free-running race pass (sampling, labelled as such)", "2 and 3 goroutines; larger N only in the race pass"},
-		QuickBudget:    100 * time.Second,
+		QuickBudget:    150 * time.Second,
 		ThoroughBudget: 25 * time.Minute,
 	})
 }
